@@ -42,6 +42,7 @@ let handle (toks : string list) : string =
             | Some ClTooLateCounted -> "chk too_late_counted " ^ too_late_kind c (zs base) tr ^ (if model <> impl then " (and model differs)" else "")
             | Some clause -> "chk " ^ (string_of_clause clause)
             | None ->
+               if quiet_violated c.ooo (zs base) tr then "chk watermark_not_redelivered" ^ (if model <> impl then " (and model differs)" else "") else
                if model <> impl then "diff tumbling_trace model=" ^ model
                else if List.exists (function EvBatch b -> List.length b.b_rows >= 2 | _ -> false) tr then "ok nt" else "ok")
        | _ -> "bad line")
@@ -58,7 +59,8 @@ let handle (toks : string list) : string =
            (match chk_C02_sliding c (zs base) tr with
             | Some STooLateCounted -> "chk too_late_counted " ^ too_late_kind c0 (zs base) tr ^ (if model <> impl then " (and model differs)" else "")
             | Some cl -> "chk " ^ string_of_sclause cl
-            | None -> if model <> impl then "diff sliding_trace model=" ^ model
+            | None -> if quiet_violated c.sooo (zs base) tr then "chk watermark_not_redelivered" ^ (if model <> impl then " (and model differs)" else "") else
+                      if model <> impl then "diff sliding_trace model=" ^ model
                       else if List.exists (function EvBatch b -> List.length b.b_rows >= 2 | _ -> false) tr then "ok nt" else "ok")
        | _ -> "bad line")
   | "N" :: timeout :: ooo :: late :: base :: rest ->
@@ -74,6 +76,7 @@ let handle (toks : string list) : string =
            let shape = ["gap_not_split"; "start_not_earliest"; "end_not_latest_plus_timeout"; "split_within_timeout"] in
            let cls = List.filter (fun x -> not (List.mem x shape))
                        (List.sort_uniq compare (List.map Sess.string_of_nclause (chk_C10 c (zs base) tr))) in
+           let cls = cls @ (if quiet_violated_s c.nooo (zs base) tr then ["watermark_not_redelivered"] else []) in
            if cls <> [] then "chk " ^ String.concat "," cls ^ (if model <> impl then " (and model differs)" else "")
            else if model <> impl then "diff session_trace model=" ^ model else "ok nt"
        | _ -> "bad line")
